@@ -2,3 +2,4 @@
 import Pdpy11.Driver
 import Pdpy11.Props.C15
 import Pdpy11.Props.C14
+import Pdpy11.Props.C04
